@@ -23,9 +23,11 @@ pub fn install_panic_hook() {
             .location()
             .map(|l| {
                 let f = l.file();
-                // keep the path relative to the repository so that signatures are stable
+                // keep the path relative to the repository so that signatures are stable; panics
+                // raised by the harness itself are marked
+                let own = f.contains("/harness/src/") || f.starts_with("src/") || f.contains("/ffi_miri/");
                 let f = f.rsplit_once("/src/").map(|(_, b)| format!("src/{b}")).unwrap_or(f.to_string());
-                format!("{}:{}", f, l.line())
+                format!("{}{}:{}", if own { "harness:" } else { "" }, f, l.line())
             })
             .unwrap_or_default();
         LAST_PANIC_LOC.with(|c| *c.borrow_mut() = loc);
@@ -42,6 +44,10 @@ pub struct PanicInfo {
 }
 
 impl PanicInfo {
+    /// true if the panic was raised by harness code (not by the repository under test)
+    pub fn in_harness(&self) -> bool {
+        self.site.starts_with("harness:")
+    }
     pub fn signature(&self) -> String {
         // numbers inside the message vary from case to case (lengths, indices): normalise them so
         // that one defect has one signature; the site keeps its line number
